@@ -25,9 +25,19 @@ Property sentence → theorem
 * the same when calls OVERLAP IN TIME without being nested — live generators of one generator function, coroutines of one
   coroutine function in flight (the yielded values are checks of the call, made later): the outcome of a call does not depend on
   the schedule                                                                      → `sched_independent`, `sched_outcome_alone`, `sched_complete_alone`, `C07_sched_partial`
+* a `Union` whose TypeVars sit inside one container alternative (`Union[List[N], List[str]]`): a failed alternative contributes nothing
+                                                                                    → `bind_after_every_test`, `tvBranch_writes_only_when_accepted` (position facts of the translated
+                                                                                      statement list), `alt_union_refines`, `alt_call_refines` (guard: the failing alternative hands the
+                                                                                      dict back unchanged; `keeps_first_element`, `keeps_wrong_container`)
+* every value collected by `**kwargs: T` is matched against T, whatever the keyword is called → `kwargs_all_checked`, `kwarg_is_checked`, `variadic_call_refines`
+* "for an instance created as Cls[X](...)" whatever makes the class generic (explicit Generic[...], a typing alias base, several bases)
+                                                                                    → `C07_declared_partial` (histories over instances declared once), `shape_resolves`, `shape_kind_eq_spec`, `declared_call_refines`, `shape_in_init` (the store kind and `Ti ↦ Xi` are DERIVED from the class
+                                                                                      shape: rest on `genericsFromOrigClass`, `genericParamsFrom`)
 * the whole property as one statement: `C07_full` (refuted: `C07_full_false`), `C07_partial` under `Guard` (= no mismatch at a direct Optional member)
 * former regions, now theorems / positive witnesses: `methodLevelTypeVar_per_call`, `nonGeneric_keeps_bindings_params`, `nonGeneric_keeps_bindings_result`
-* open region, witness: `mismatch_in_optional_witness`
+* open regions, witnesses: `mismatch_in_optional_witness`, `failed_alternative_leaves_binding_witness`, `mismatch_in_alternative_aborts_witness`,
+  `first_base_with_other_arguments_escapes`, `first_base_without_arguments_binds_nothing`, `first_base_in_other_order_swaps`, `user_base_only_is_per_call`,
+  `generic_subclass_not_recognised_witness`, `init_of_generic_instance_unchecked_witness`
 -/
 namespace PedVerif.TypeVars
 open PedVerif.Gen.TypeVars
@@ -456,6 +466,32 @@ theorem bound_honoured (env : Env) (hn : NoneOnly env) (c : Call)
   refine runCall_not_ok env c ⟨av, hav, ?_⟩ s
   exact meets_not_true env hn _ (fun t v hb m => tvBranch_bound env t v hb m) av.1 av.2 hm
 
+/-- every call ends in a return or in one of the two exceptions of the property (nothing else leaves the checks of the model) -/
+theorem runCall_out (env : Env) (c : Call) (s : Stores) :
+    (runCall env c s).1 = .ok ∨ (runCall env c s).1 = .pedTypeCheck ∨ (runCall env c s).1 = .pedTVMismatch := by
+  unfold runCall
+  split
+  · simp [instanceAccessorSwitch]
+  · simp only
+    rw [runChecks_fst]
+    exact runFrom_out env c.checks _
+
+/-- **constraints are honoured, with the exception the property names**: such a call raises PedanticTypeCheckException or
+    PedanticTypeVarMismatchException (the latter when a mismatch at another position is met first) -/
+theorem constraints_rejected (env : Env) (hn : NoneOnly env) (c : Call)
+    (h : ∃ av ∈ c.checks, meets env (violatesConstraints env) av.1 av.2 = true) (s : Stores) :
+    (runCall env c s).1 = .pedTypeCheck ∨ (runCall env c s).1 = .pedTVMismatch := by
+  rcases runCall_out env c s with h0 | h1
+  · exact absurd h0 (constraints_honoured env hn c h s)
+  · exact h1
+
+theorem bound_rejected (env : Env) (hn : NoneOnly env) (c : Call)
+    (h : ∃ av ∈ c.checks, meets env (violatesBound env) av.1 av.2 = true) (s : Stores) :
+    (runCall env c s).1 = .pedTypeCheck ∨ (runCall env c s).1 = .pedTVMismatch := by
+  rcases runCall_out env c s with h0 | h1
+  · exact absurd h0 (bound_honoured env hn c h s)
+  · exact h1
+
 /-! ## Per generic instance: a value at a class parameter is accepted iff it conforms to `X` -/
 
 /-- the class parameters of `Cls[X, ...]`: plain TypeVars, each bound to a TypeVar-free annotation of the vocabulary -/
@@ -578,7 +614,7 @@ theorem subst_closed (g : TVMap) : ∀ a, Spec.closed a = true → Spec.subst g 
 theorem optional_generic_tv (env : Env) (wf : EnvWF env) (t : TVId) (v : Val) (m : TVMap) (c : Bool)
     (hm : (m.get? t).isSome = true) (htv : tvBranch env t v m = (if c then .ok true else .raisedTV, m)) :
     ∃ r, isInst env (.union [.tv t, .cls env.noneCls]) v m = (r, m) ∧ (r = .ok true ↔ (c || env.sub (v.typeOf env) env.noneCls) = true) := by
-  simp only [isInst, membersInst, A.isTV, ↓reduceIte, Bool.false_eq_true, clsAnn, wf.noneNotBare, Bool.or_false, tvMembers]
+  simp only [tvEq, tvEq, A.isTV, ↓reduceIte, Bool.false_eq_true, clsAnn, wf.noneNotBare, Bool.or_false, tvMembers]
   cases hs : env.sub (v.typeOf env) env.noneCls with
   | true => exact ⟨.ok true, rfl, by simp⟩
   | false =>
@@ -600,9 +636,9 @@ theorem optional_generic_nontv (env : Env) (wf : EnvWF env) (x : A) (hf : frag e
   · have hx' := container_on_none env wf x hf hc hu ht v hn m
     have hs : env.sub (v.typeOf env) env.noneCls = true := by rw [sub_none env wf]; simp [hn]
     refine ⟨.ok true, ?_, by simp [hs]⟩
-    simp [isInst, membersInst, ht, isTV_cls, hx', clsAnn, wf.noneNotBare, hs]
+    simp [tvEq, tvEq, ht, isTV_cls, hx', clsAnn, wf.noneNotBare, hs]
   · have hs : env.sub (v.typeOf env) env.noneCls = false := wf.noneOnly _ hn
-    simp only [isInst, membersInst, ht, isTV_cls, Bool.false_eq_true, ↓reduceIte, hx, clsAnn, wf.noneNotBare, hs, htvm, unionTVs_nil,
+    simp only [tvEq, tvEq, ht, isTV_cls, Bool.false_eq_true, ↓reduceIte, hx, clsAnn, wf.noneNotBare, hs, htvm, unionTVs_nil,
       Bool.or_false]
     cases r with
     | ok b =>
@@ -631,32 +667,32 @@ theorem generic_iff (env : Env) (wf : EnvWF env) (g m : TVMap) (hg : GoodGeneric
       (∀ xs, ∃ r, zipInst env l xs m = (r, m) ∧ (r = .ok true ↔ Spec.conformsZip env (Spec.substL g l) xs = true)))
   · intro c hf _ v
     have : env.bareBuiltin c = false := by simpa [frag] using hf
-    exact ⟨_, by simp only [isInst, clsAnn, this]; rfl, by simp [Spec.subst, Spec.conforms]⟩
-  · intro _ _ v; exact ⟨.ok true, by simp [isInst], by simp [Spec.subst, Spec.conforms]⟩
+    exact ⟨_, by simp only [tvEq, clsAnn, this]; rfl, by simp [Spec.subst, Spec.conforms]⟩
+  · intro _ _ v; exact ⟨.ok true, by simp [tvEq], by simp [Spec.subst, Spec.conforms]⟩
   · intro t _ ht v
     have hk : t ∈ keys g := by simpa [tvsIn] using ht
     obtain ⟨X, hX⟩ := get?_of_key g t hk
     have hmX : m.get? t = some X := by rw [hm t hk, hX]
-    refine ⟨_, by simp only [isInst]; exact tv_generic env g m hg t X hX hmX v, ?_⟩
+    refine ⟨_, by simp only [tvEq]; exact tv_generic env g m hg t X hX hmX v, ?_⟩
     simp only [Spec.subst, hX]
     by_cases hc : Spec.conforms env X v = true <;> simp [hc]
   · intro a ih hf ht v
     have iha := ih (by simpa [frag] using hf) (by simpa [tvsIn] using ht)
     cases v with
-    | list xs => simp only [isInst, Spec.subst, Spec.conforms]; exact allWith_fixed _ _ m iha xs
-    | _ => exact ⟨.ok false, by simp [isInst], by simp [Spec.subst, Spec.conforms]⟩
+    | list xs => simp only [tvEq, Spec.subst, Spec.conforms]; exact allWith_fixed _ _ m iha xs
+    | _ => exact ⟨.ok false, by simp [tvEq], by simp [Spec.subst, Spec.conforms]⟩
   · intro k w ihk ihw hf ht v
     simp only [frag, Bool.and_eq_true] at hf
     simp only [tvsIn, Bool.and_eq_true] at ht
     cases v with
-    | dict kvs => simp only [isInst, Spec.subst, Spec.conforms]; exact pairsWith_fixed _ _ _ _ m (ihk hf.1 ht.1) (ihw hf.2 ht.2) kvs
-    | _ => exact ⟨.ok false, by simp [isInst], by simp [Spec.subst, Spec.conforms]⟩
+    | dict kvs => simp only [tvEq, Spec.subst, Spec.conforms]; exact pairsWith_fixed _ _ _ _ m (ihk hf.1 ht.1) (ihw hf.2 ht.2) kvs
+    | _ => exact ⟨.ok false, by simp [tvEq], by simp [Spec.subst, Spec.conforms]⟩
   · intro items ih hf ht v
     simp only [frag, Bool.and_eq_true, Bool.not_eq_eq_eq_not, Bool.not_true] at hf
     have hz := (ih hf.2 (by simpa [tvsIn] using ht)).2
     have hlen : ∀ l : List A, (Spec.substL g l).length = l.length := by
       intro l; induction l with | nil => rfl | cons a as ih => simp [Spec.substL, ih]
-    simp only [isInst, tuple_args_ok' items hf.1, Bool.false_eq_true, ↓reduceIte, Spec.subst]
+    simp only [tvEq, tuple_args_ok' items hf.1, Bool.false_eq_true, ↓reduceIte, Spec.subst]
     cases v with
     | tuple xs =>
       simp only [Spec.conforms, hlen]
@@ -668,8 +704,8 @@ theorem generic_iff (env : Env) (wf : EnvWF env) (g m : TVMap) (hg : GoodGeneric
   · intro a ih hf ht v
     have iha := ih (by simpa [frag] using hf) (by simpa [tvsIn] using ht)
     cases v with
-    | tuple xs => simp only [isInst, Spec.subst, Spec.conforms]; exact allWith_fixed _ _ m iha xs
-    | _ => exact ⟨.ok false, by simp [isInst], by simp [Spec.subst, Spec.conforms]⟩
+    | tuple xs => simp only [tvEq, Spec.subst, Spec.conforms]; exact allWith_fixed _ _ m iha xs
+    | _ => exact ⟨.ok false, by simp [tvEq], by simp [Spec.subst, Spec.conforms]⟩
   · intro ms ih hf ht v
     have hf0 := hf
     simp only [frag, Bool.and_eq_true, Bool.or_eq_true] at hf
@@ -706,7 +742,7 @@ theorem generic_iff (env : Env) (wf : EnvWF env) (g m : TVMap) (hg : GoodGeneric
         · exact optional_generic_nontv env wf x hfx hxc hu (by simpa using htv) v m r _ hr hiff
   · intro a _ hf; simp [frag] at hf
   · intro _ _
-    exact ⟨by intro a ha; simp at ha, by intro xs; exact ⟨.ok true, by simp [zipInst], by simp [Spec.substL, Spec.conformsZip]⟩⟩
+    exact ⟨by intro a ha; simp at ha, by intro xs; exact ⟨.ok true, by simp [tvEq], by simp [Spec.substL, Spec.conformsZip]⟩⟩
   · intro a as iha ihas hf ht
     simp only [fragL, Bool.and_eq_true] at hf
     simp only [tvsInL, Bool.and_eq_true] at ht
@@ -720,10 +756,10 @@ theorem generic_iff (env : Env) (wf : EnvWF env) (g m : TVMap) (hg : GoodGeneric
       · exact hmem b hb
     · intro xs
       cases xs with
-      | nil => exact ⟨.ok true, by simp [zipInst], by simp [Spec.substL, Spec.conformsZip]⟩
+      | nil => exact ⟨.ok true, by simp [tvEq], by simp [Spec.substL, Spec.conformsZip]⟩
       | cons x xs =>
         obtain ⟨r, hr, hiff⟩ := ha x
-        simp only [zipInst, hr, Spec.substL, Spec.conformsZip, Bool.and_eq_true]
+        simp only [tvEq, hr, Spec.substL, Spec.conformsZip, Bool.and_eq_true]
         by_cases h1 : r = .ok true
         · subst h1
           obtain ⟨r', hr', hiff'⟩ := hz xs
@@ -833,7 +869,7 @@ theorem walkUnion_opt (env : Env) (wf : EnvWF env) (y : A) (v : Val) (s : Spec.S
 theorem optional_generic_tv_exact (env : Env) (wf : EnvWF env) (t : TVId) (v : Val) (m : TVMap) (c : Bool)
     (hm : (m.get? t).isSome = true) (htv : tvBranch env t v m = (if c then .ok true else .raisedTV, m)) :
     isInst env (.union [.tv t, .cls env.noneCls]) v m = (.ok (c || env.sub (v.typeOf env) env.noneCls), m) := by
-  simp only [isInst, membersInst, A.isTV, ↓reduceIte, Bool.false_eq_true, clsAnn, wf.noneNotBare, Bool.or_false, tvMembers]
+  simp only [tvEq, tvEq, A.isTV, ↓reduceIte, Bool.false_eq_true, clsAnn, wf.noneNotBare, Bool.or_false, tvMembers]
   cases hs : env.sub (v.typeOf env) env.noneCls with
   | true => simp
   | false =>
@@ -848,7 +884,7 @@ theorem optional_tv_refines (env : Env) (wf : EnvWF env) (g : TVMap) (t : TVId) 
     (h : Inv g s m) :
     Refines g (if v.typeOf env == env.noneCls then .cont s else Spec.inOptional true (Spec.walkTV env t v s))
       (isInst env (.union [.tv t, .cls env.noneCls]) v m) := by
-  simp only [isInst, membersInst, A.isTV, ↓reduceIte, Bool.false_eq_true, clsAnn, wf.noneNotBare, Bool.or_false, tvMembers,
+  simp only [tvEq, tvEq, A.isTV, ↓reduceIte, Bool.false_eq_true, clsAnn, wf.noneNotBare, Bool.or_false, tvMembers,
     sub_none env wf]
   by_cases hn : v.typeOf env = env.noneCls
   · simp only [hn, beq_self_eq_true, ↓reduceIte]; exact ⟨rfl, h⟩
@@ -944,7 +980,7 @@ theorem optional_nontv_refines (env : Env) (wf : EnvWF env) (g : TVMap) (x y : A
     have hs : env.sub (v.typeOf env) env.noneCls = true := by rw [sub_none env wf]; simp [hn]
     simp only [hn, beq_self_eq_true, ↓reduceIte]
     have : isInst env (.union [x, .cls env.noneCls]) v m = (.ok true, m) := by
-      simp [isInst, membersInst, ht, isTV_cls, hx', clsAnn, wf.noneNotBare, hs]
+      simp [tvEq, tvEq, ht, isTV_cls, hx', clsAnn, wf.noneNotBare, hs]
     rw [this]
     exact ⟨rfl, h⟩
   · have hs : env.sub (v.typeOf env) env.noneCls = false := wf.noneOnly _ hn
@@ -952,7 +988,7 @@ theorem optional_nontv_refines (env : Env) (wf : EnvWF env) (g : TVMap) (x y : A
     simp only [hne, Bool.false_eq_true, ↓reduceIte]
     rcases hr : isInst env x v m with ⟨r, m'⟩
     rw [hr] at ih
-    simp only [isInst, membersInst, ht, isTV_cls, Bool.false_eq_true, ↓reduceIte, hr, clsAnn, wf.noneNotBare, hs, htvm, unionTVs_nil,
+    simp only [tvEq, tvEq, ht, isTV_cls, Bool.false_eq_true, ↓reduceIte, hr, clsAnn, wf.noneNotBare, hs, htvm, unionTVs_nil,
       Bool.or_false]
     cases hw : Spec.walk env y v s with
     | cont s' =>
@@ -987,37 +1023,37 @@ theorem walk_refines (env : Env) (wf : EnvWF env) (g : TVMap) (hg : GoodGenerics
       (∀ xs s m, Inv g s m → Refines g (Spec.walkZip env (Spec.substL g l) xs s) (zipInst env l xs m)))
   · intro c hf v s m h
     have : env.bareBuiltin c = false := by simpa [frag] using hf
-    simp only [Spec.subst, Spec.walk, isInst, clsAnn, this, Bool.false_eq_true, ↓reduceIte]
+    simp only [Spec.subst, Spec.walk, tvEq, clsAnn, this, Bool.false_eq_true, ↓reduceIte]
     cases env.sub (v.typeOf env) c with
     | true => exact ⟨rfl, h⟩
     | false => simp [Refines, RejectOK]
-  · intro _ v s m h; simp only [Spec.subst, Spec.walk, isInst]; exact ⟨rfl, h⟩
+  · intro _ v s m h; simp only [Spec.subst, Spec.walk, tvEq]; exact ⟨rfl, h⟩
   · intro t _ v s m h
     by_cases hk : t ∈ keys g
     · obtain ⟨X, hX⟩ := get?_of_key g t hk
       have hmX : m.get? t = some X := by rw [h.1 t hk, hX]
       have hXc : Spec.closed X = true := (hg t X (get?_mem g t X hX)).2.1
       have hm : BoundAs g m := h.1
-      simp only [Spec.subst, hX, isInst, tv_generic env g m hg t X hX hmX v, walk_closed env X hXc v s]
+      simp only [Spec.subst, hX, tvEq, tv_generic env g m hg t X hX hmX v, walk_closed env X hXc v s]
       by_cases hc : Spec.conforms env X v = true
       · simp only [hc, ↓reduceIte]; exact ⟨rfl, h⟩
       · simp only [hc, Bool.false_eq_true, ↓reduceIte]; exact Or.inr ⟨ne_nil_of_key hk, rfl⟩
-    · simp only [Spec.subst, get?_none_of_not_key g t hk, Spec.walk, isInst]
+    · simp only [Spec.subst, get?_none_of_not_key g t hk, Spec.walk, tvEq]
       exact tv_refines env wf g t hk v s m h
   · intro a ih hf v s m h
     have iha := ih (by simpa [frag] using hf)
     cases v with
-    | list xs => simp only [Spec.subst, Spec.walk, isInst]; exact allWith_refines g _ _ iha xs s m h
-    | _ => simp [Spec.subst, Spec.walk, isInst, Refines, RejectOK]
+    | list xs => simp only [Spec.subst, Spec.walk, tvEq]; exact allWith_refines g _ _ iha xs s m h
+    | _ => simp [Spec.subst, Spec.walk, tvEq, Refines, RejectOK]
   · intro k w ihk ihw hf v s m h
     simp only [frag, Bool.and_eq_true] at hf
     cases v with
-    | dict kvs => simp only [Spec.subst, Spec.walk, isInst]; exact pairsWith_refines g _ _ _ _ (ihk hf.1) (ihw hf.2) kvs s m h
-    | _ => simp [Spec.subst, Spec.walk, isInst, Refines, RejectOK]
+    | dict kvs => simp only [Spec.subst, Spec.walk, tvEq]; exact pairsWith_refines g _ _ _ _ (ihk hf.1) (ihw hf.2) kvs s m h
+    | _ => simp [Spec.subst, Spec.walk, tvEq, Refines, RejectOK]
   · intro items ih hf v s m h
     simp only [frag, Bool.and_eq_true, Bool.not_eq_eq_eq_not, Bool.not_true] at hf
     have hz := (ih hf.2).2
-    simp only [Spec.subst, Spec.walk, isInst, tuple_args_ok' items hf.1, Bool.false_eq_true, ↓reduceIte, hlen]
+    simp only [Spec.subst, Spec.walk, tvEq, tuple_args_ok' items hf.1, Bool.false_eq_true, ↓reduceIte, hlen]
     cases v with
     | tuple xs =>
       simp only
@@ -1028,8 +1064,8 @@ theorem walk_refines (env : Env) (wf : EnvWF env) (g : TVMap) (hg : GoodGenerics
   · intro a ih hf v s m h
     have iha := ih (by simpa [frag] using hf)
     cases v with
-    | tuple xs => simp only [Spec.subst, Spec.walk, isInst]; exact allWith_refines g _ _ iha xs s m h
-    | _ => simp [Spec.subst, Spec.walk, isInst, Refines, RejectOK]
+    | tuple xs => simp only [Spec.subst, Spec.walk, tvEq]; exact allWith_refines g _ _ iha xs s m h
+    | _ => simp [Spec.subst, Spec.walk, tvEq, Refines, RejectOK]
   · intro ms ih hf v s m h
     have hf0 := hf
     simp only [frag, Bool.and_eq_true, Bool.or_eq_true] at hf
@@ -1085,7 +1121,7 @@ theorem walk_refines (env : Env) (wf : EnvWF env) (g : TVMap) (hg : GoodGenerics
           exact optional_nontv_refines env wf g x (Spec.subst g x) hfx hxc hu htv' v s m h (hmem x (by simp) v s m h)
   · intro a _ hf; simp [frag] at hf
   · intro _
-    exact ⟨by intro a ha; simp at ha, by intro xs s m h; simp only [Spec.substL, Spec.walkZip, zipInst]; exact ⟨rfl, h⟩⟩
+    exact ⟨by intro a ha; simp at ha, by intro xs s m h; simp only [Spec.substL, Spec.walkZip, tvEq]; exact ⟨rfl, h⟩⟩
   · intro a as iha ihas hf
     simp only [fragL, Bool.and_eq_true] at hf
     have ha := iha hf.1
@@ -1098,10 +1134,10 @@ theorem walk_refines (env : Env) (wf : EnvWF env) (g : TVMap) (hg : GoodGenerics
       · exact hmem b hb
     · intro xs s m h
       cases xs with
-      | nil => simp only [Spec.substL, Spec.walkZip, zipInst]; exact ⟨rfl, h⟩
+      | nil => simp only [Spec.substL, Spec.walkZip, tvEq]; exact ⟨rfl, h⟩
       | cons x xs =>
         have hx := ha x s m h
-        simp only [Spec.substL, Spec.walkZip, zipInst]
+        simp only [Spec.substL, Spec.walkZip, tvEq]
         rcases hF : isInst env a x m with ⟨r, m'⟩
         rw [hF] at hx
         cases hw : Spec.walk env (Spec.subst g a) x s with
@@ -2463,5 +2499,803 @@ example :
     let lvl (v : Val) (body : List Tree) : Tree := .node (plain [(T, v), (.cls 0, v), (T, v)]) 2 body
     (runTree envX (lvl (.inst 2) [lvl (.inst 3) [lvl (.inst 11) []]]) Stores.empty).out = .ok ∧
     (runTree envX (lvl (.inst 2) [lvl (.inst 3) [lvl (.inst 11) []]]) Stores.empty).log = [some .ok, some .ok] := by decide
+
+/-! ## Union alternatives, variadic keyword parameters, class shapes -/
+
+/-- position fact of the translated statement list: the binding statement comes after every test of the TypeVar branch -/
+theorem bind_after_every_test : ∀ a ∈ tvArms, a ≠ Arm.bind → tvArms.idxOf a < tvArms.idxOf Arm.bind := by decide
+
+/-- ... and it is the last statement before `return True` -/
+theorem bind_is_last : tvArms.getLast? = some Arm.bind := by decide
+
+/-- **the binding is written only when the value was accepted**: whatever the dict holds, a value that fails a constraint, the
+    bound, or the comparison with an earlier binding (`False` or an exception) leaves the dict exactly as it was -/
+theorem tvBranch_writes_only_when_accepted (env : Env) (t : TVId) (v : Val) (m : TVMap)
+    (h : (tvBranch env t v m).1 ≠ .ok true) : (tvBranch env t v m).2 = m := by
+  rw [tvBranch_eq] at h ⊢
+  unfold tvSem at h ⊢
+  cases hp : tvPre env t v with
+  | ok b =>
+    cases b with
+    | false => simp
+    | true =>
+      rw [hp] at h
+      simp only at h ⊢
+      cases hm : m.get? t with
+      | none => rw [hm] at h; simp at h
+      | some other =>
+        simp only
+        cases tvCmp env t other v with
+        | ok b => cases b <;> simp
+        | _ => simp
+  | _ => simp
+
+/-- ... and when it is written, it is the runtime class of the value for a TypeVar that had no binding -/
+theorem tvBranch_write (env : Env) (t : TVId) (v : Val) (m : TVMap) :
+    (tvBranch env t v m).2 = m ∨ (m.get? t = none ∧ (tvBranch env t v m).2 = m.set t (.cls (v.typeOf env))) := by
+  rw [tvBranch_eq]
+  unfold tvSem
+  cases hp : tvPre env t v with
+  | ok b =>
+    cases b with
+    | false => exact Or.inl rfl
+    | true =>
+      simp only
+      cases hm : m.get? t with
+      | none => exact Or.inr ⟨rfl, rfl⟩
+      | some other =>
+        simp only
+        cases tvCmp env t other v with
+        | ok b => cases b <;> exact Or.inl rfl
+        | _ => exact Or.inl rfl
+  | _ => exact Or.inl rfl
+
+/-! ### a union whose TypeVars sit inside one container alternative -/
+
+/-- TypeVar-free members in the vocabulary: the model answers `conformsAny` and leaves the dict alone -/
+theorem membersInst_closed (env : Env) : ∀ (l : List A), Spec.closedL l = true → fragL env l = true → ∀ v m,
+    membersInst env l v m = (.ok (Spec.conformsAny env l v), m) := by
+  intro l
+  induction l with
+  | nil => intro _ _ v m; simp [tvEq, Spec.conformsAny]
+  | cons a as ih =>
+    intro hc hf v m
+    simp only [Spec.closedL, Bool.and_eq_true] at hc
+    simp only [fragL, Bool.and_eq_true] at hf
+    simp only [tvEq, closed_not_tv hc.1, Bool.false_eq_true, ↓reduceIte, isInst_closed_conforms env a hf.1 hc.1 v m,
+      ih hc.2 hf.2 v m, Spec.conformsAny]
+
+theorem tvMembers_closed : ∀ (l : List A), Spec.closedL l = true → tvMembers l = [] := by
+  intro l
+  induction l with
+  | nil => intro _; rfl
+  | cons a as ih =>
+    intro hc
+    simp only [Spec.closedL, Bool.and_eq_true] at hc
+    cases a <;> simp_all [tvMembers, Spec.closed]
+
+theorem tvMembers_append (l₁ l₂ : List A) : tvMembers (l₁ ++ l₂) = tvMembers l₁ ++ tvMembers l₂ := by
+  induction l₁ with
+  | nil => rfl
+  | cons a as ih => cases a <;> simp [tvMembers, ih]
+
+theorem tvMembers_not_tv (x : A) (h : x.isTV = false) (l : List A) : tvMembers (x :: l) = tvMembers l := by
+  cases x <;> simp_all [tvMembers, A.isTV]
+
+/-- the members of `pre ++ x :: post`, `pre` and `post` TypeVar-free: the dict goes through `x` only -/
+theorem membersInst_alt (env : Env) (x : A) (hxt : x.isTV = false) (post : List A) (hpc : Spec.closedL post = true) (hpf : fragL env post = true) :
+    ∀ (pre : List A), Spec.closedL pre = true → fragL env pre = true → ∀ v m,
+    membersInst env (pre ++ x :: post) v m =
+      (match isInst env x v m with
+       | (.ok b, m') => (.ok (Spec.conformsAny env pre v || (b || Spec.conformsAny env post v)), m')
+       | r => r) := by
+  intro pre
+  induction pre with
+  | nil =>
+    intro _ _ v m
+    simp only [List.nil_append, tvEq, hxt, Bool.false_eq_true, ↓reduceIte, Spec.conformsAny, Bool.false_or]
+    rcases hr : isInst env x v m with ⟨r, m'⟩
+    cases r with
+    | ok b => simp [membersInst_closed env post hpc hpf v m']
+    | _ => rfl
+  | cons a as ih =>
+    intro hc hf v m
+    simp only [Spec.closedL, Bool.and_eq_true] at hc
+    simp only [fragL, Bool.and_eq_true] at hf
+    simp only [List.cons_append, tvEq, closed_not_tv hc.1, Bool.false_eq_true, ↓reduceIte,
+      isInst_closed_conforms env a hf.1 hc.1 v m, ih hc.2 hf.2 v m, Spec.conformsAny]
+    rcases hr : isInst env x v m with ⟨r, m'⟩
+    cases r with
+    | ok b => simp [Bool.or_assoc]
+    | _ => rfl
+
+/-- `_check_union` on such a union: True iff some alternative accepts; an exception raised inside `x` leaves at once -/
+theorem isInst_alt_union (env : Env) (pre post : List A) (x : A) (hxt : x.isTV = false)
+    (hprec : Spec.closedL pre = true) (hpref : fragL env pre = true) (hpc : Spec.closedL post = true) (hpf : fragL env post = true)
+    (v : Val) (m : TVMap) :
+    isInst env (.union (pre ++ x :: post)) v m =
+      (match isInst env x v m with
+       | (.ok b, m') => (.ok (Spec.conformsAny env pre v || (b || Spec.conformsAny env post v)), m')
+       | r => r) := by
+  have htv : tvMembers (pre ++ x :: post) = [] := by
+    rw [tvMembers_append, tvMembers_not_tv x hxt, tvMembers_closed pre hprec, tvMembers_closed post hpc]; rfl
+  simp only [tvEq, membersInst_alt env x hxt post hpc hpf pre hprec hpref v m, htv, unionTVs_nil]
+  rcases hr : isInst env x v m with ⟨r, m'⟩
+  cases r with
+  | ok b =>
+    simp only
+    cases Spec.conformsAny env pre v || (b || Spec.conformsAny env post v) <;> rfl
+  | _ => rfl
+
+theorem walkEach_append (env : Env) (l₁ l₂ : List A) (v : Val) (s : Spec.Seen) :
+    Spec.walkEach env (l₁ ++ l₂) v s = Spec.walkEach env l₁ v s ++ Spec.walkEach env l₂ v s := by
+  induction l₁ with
+  | nil => rfl
+  | cons a as ih => simp [Spec.walkEach, ih]
+
+theorem walkEach_length (env : Env) (l : List A) (v : Val) (s : Spec.Seen) : (Spec.walkEach env l v s).length = l.length := by
+  induction l with
+  | nil => rfl
+  | cons a as ih => simp [Spec.walkEach, ih]
+
+/-- of the alternatives of `pre ++ x :: post` only `x` mentions TypeVars -/
+theorem alt_open (env : Env) (x : A) (hxc : Spec.closed x = false) (post : List A) (hpc : Spec.closedL post = true) (v : Val) (s : Spec.Seen) :
+    ∀ (pre : List A), Spec.closedL pre = true →
+      ((pre ++ x :: post).zip (Spec.walkEach env (pre ++ x :: post) v s)).filter (fun p => !Spec.closed p.1) = [(x, Spec.walk env x v s)] := by
+  have hpost : ∀ (l : List A), Spec.closedL l = true → (l.zip (Spec.walkEach env l v s)).filter (fun p => !Spec.closed p.1) = [] := by
+    intro l
+    induction l with
+    | nil => intro _; rfl
+    | cons a as ih =>
+      intro hc
+      simp only [Spec.closedL, Bool.and_eq_true] at hc
+      simp [Spec.walkEach, hc.1, ih hc.2]
+  intro pre
+  induction pre with
+  | nil => intro _; simp [Spec.walkEach, hxc, hpost post hpc]
+  | cons a as ih =>
+    intro hc
+    simp only [Spec.closedL, Bool.and_eq_true] at hc
+    simp [Spec.walkEach, hc.1, ih hc.2]
+
+theorem closedOnly_alt (x : A) (hxc : Spec.closed x = false) (post : List A) (hpc : Spec.closedL post = true) :
+    ∀ (pre : List A), Spec.closedL pre = true → Spec.closedOnly (pre ++ x :: post) = pre ++ post := by
+  have hpost : ∀ (l : List A), Spec.closedL l = true → Spec.closedOnly l = l := by
+    intro l
+    induction l with
+    | nil => intro _; rfl
+    | cons a as ih =>
+      intro hc
+      simp only [Spec.closedL, Bool.and_eq_true] at hc
+      simp [Spec.closedOnly, hc.1, ih hc.2]
+  intro pre
+  induction pre with
+  | nil => intro _; simp [Spec.closedOnly, hxc, hpost post hpc]
+  | cons a as ih =>
+    intro hc
+    simp only [Spec.closedL, Bool.and_eq_true] at hc
+    simp [Spec.closedOnly, hc.1, ih hc.2]
+
+theorem conformsAny_append (env : Env) (l₁ l₂ : List A) (v : Val) :
+    Spec.conformsAny env (l₁ ++ l₂) v = (Spec.conformsAny env l₁ v || Spec.conformsAny env l₂ v) := by
+  induction l₁ with
+  | nil => simp [Spec.conformsAny]
+  | cons a as ih => simp [Spec.conformsAny, ih, Bool.or_assoc]
+
+theorem closedL_append (l₁ l₂ : List A) : Spec.closedL (l₁ ++ l₂) = (Spec.closedL l₁ && Spec.closedL l₂) := by
+  induction l₁ with
+  | nil => simp [Spec.closedL]
+  | cons a as ih => simp [Spec.closedL, ih, Bool.and_assoc]
+
+/-- outside the TypeVar-free and the `Optional[...]` forms the specification of a union is `altVerdict` over the walks of its alternatives -/
+theorem walkUnion_alt (env : Env) (ms : List A) (hcl : Spec.closedL ms = false) (hnn : ∀ a ∈ ms, Spec.isNoneCls env a = false)
+    (v : Val) (s : Spec.Seen) :
+    Spec.walkUnion env ms v s =
+      Spec.altVerdict Spec.closed A.isTV (Spec.conformsAny env (Spec.closedOnly ms) v) ms s (Spec.walkEach env ms v s) := by
+  match ms, hcl, hnn with
+  | [], hcl, _ => simp [Spec.closedL] at hcl
+  | [a], hcl, _ => simp [Spec.walkUnion, hcl, Spec.walkEach]
+  | [a, b], hcl, hnn =>
+    have ha := hnn a (by simp)
+    have hb := hnn b (by simp)
+    have hab : (Spec.closed a && Spec.closed b) = false := by simpa [Spec.closedL] using hcl
+    simp [Spec.walkUnion, hab, ha, hb, Spec.walkEach]
+  | a :: b :: c :: r, hcl, _ => simp [Spec.walkUnion, hcl, Spec.walkEach]
+
+/-- what the alternatives of a claimed union look like: `pre ++ x :: post`, `x` a container in the vocabulary with TypeVars
+    inside, every other alternative TypeVar-free, in the vocabulary and not `None` (`Optional[...]` is `walk_refines`) -/
+structure AltUnion (env : Env) (pre : List A) (x : A) (post : List A) : Prop where
+  xFrag : frag env x = true
+  xOpen : Spec.closed x = false
+  xNotTV : x.isTV = false
+  preClosed : Spec.closedL pre = true
+  preFrag : fragL env pre = true
+  postClosed : Spec.closedL post = true
+  postFrag : fragL env post = true
+  noNone : ∀ a ∈ pre ++ post, Spec.isNoneCls env a = false
+
+theorem isNoneCls_open (env : Env) (x : A) (h : Spec.closed x = false) : Spec.isNoneCls env x = false := by
+  cases x <;> simp_all [Spec.isNoneCls, Spec.closed]
+
+/-- **a union with one TypeVar alternative, on the per-call store**: from a dict that mirrors what the specification has seen,
+    `_check_union` does what the specification demands of the union — the bindings of the alternative `x` count exactly when `x`
+    accepts — PROVIDED the alternative, when it fails, hands the dict back as it received it (`hkeeps`: the guard; where it does
+    not hold the code keeps what the failed alternative tied: finding `failedUnionAlternativeLeavesBinding`) -/
+theorem alt_union_refines (env : Env) (wf : EnvWF env) (pre post : List A) (x : A) (hu : AltUnion env pre x post)
+    (v : Val) (s : Spec.Seen) (m : TVMap) (h : Inv [] s m)
+    (hkeeps : (isInst env x v m).1 = .ok false → (isInst env x v m).2 = m) :
+    Refines [] (Spec.walk env (.union (pre ++ x :: post)) v s) (isInst env (.union (pre ++ x :: post)) v m) := by
+  have hx := walk_refines env wf [] (goodGenerics_nil env) x hu.xFrag v s m h
+  rw [subst_nil] at hx
+  have hcl : Spec.closedL (pre ++ x :: post) = false := by
+    rw [closedL_append]; simp [Spec.closedL, hu.xOpen]
+  have hnn : ∀ a ∈ pre ++ x :: post, Spec.isNoneCls env a = false := by
+    intro a ha
+    simp only [List.mem_append, List.mem_cons] at ha
+    rcases ha with ha | rfl | ha
+    · exact hu.noNone a (by simp [ha])
+    · exact isNoneCls_open env _ hu.xOpen
+    · exact hu.noNone a (by simp [ha])
+  simp only [Spec.walk]
+  rw [walkUnion_alt env _ hcl hnn v s, isInst_alt_union env pre post x hu.xNotTV hu.preClosed hu.preFrag hu.postClosed hu.postFrag v m]
+  unfold Spec.altVerdict
+  rw [alt_open env x hu.xOpen post hu.postClosed v s pre hu.preClosed, closedOnly_alt x hu.xOpen post hu.postClosed pre hu.preClosed,
+    conformsAny_append]
+  simp only [hu.xNotTV, Bool.false_eq_true, ↓reduceIte]
+  rcases hr : isInst env x v m with ⟨r, m'⟩
+  rw [hr] at hx hkeeps
+  simp only at hkeeps
+  cases hw : Spec.walk env x v s with
+  | cont s' =>
+    rw [hw] at hx
+    obtain ⟨h1, h2⟩ := hx
+    simp only at h1 h2
+    subst h1
+    simp only [Bool.true_or, Bool.or_true]
+    split
+    · trivial
+    · exact ⟨rfl, h2⟩
+  | stop vd =>
+    rw [hw] at hx
+    cases vd with
+    | accept => exact hx.elim
+    | unclaimed => trivial
+    | tvm =>
+      have h1 : r = .raisedTV := hx
+      subst h1
+      simp only
+      split
+      · trivial
+      · rfl
+    | tvmInUnion =>
+      have h1 : r = .ok false := hx
+      subst h1
+      simp only [Bool.false_or]
+      cases hc : Spec.conformsAny env pre v || Spec.conformsAny env post v with
+      | true => simp [Refines]
+      | false => simp [Refines]
+    | reject =>
+      have h1 : RejectOK [] r := hx
+      rcases h1 with rfl | ⟨hg, _⟩
+      · have hm' : m' = m := hkeeps rfl
+        subst hm'
+        simp only [Bool.false_or]
+        cases hc : Spec.conformsAny env pre v || Spec.conformsAny env post v with
+        | true => exact ⟨rfl, h⟩
+        | false => exact Or.inl rfl
+      · exact absurd rfl hg
+
+/-- a per-call store: plain functions, static / class methods, directly decorated methods, methods of non-generic `@pedantic_class` classes -/
+def PerCallStore (c : Call) : Prop := c.kind = .perCall ∨ c.kind = .resetEachAccess
+
+theorem perCall_run (env : Env) (c : Call) (hk : PerCallStore c) (s : Stores) : (runCall env c s).1 = (runFrom env c.checks []).1 := by
+  rcases hk with hk | hk
+  · unfold runCall
+    rw [hk]
+    simp only [perCallFreshMap, ↓reduceIte]
+    rw [runChecks_fst]; rfl
+  · unfold runCall
+    rw [hk]
+    simp only
+    rw [runChecks_fst]
+    simp [accessMap, instanceAccessorSwitch, nonGenericFresh]
+
+theorem perCall_spec (env : Env) (c : Call) (hk : PerCallStore c) (hu : Spec.specCall env c ≠ .unclaimed) :
+    Spec.specCall env c = Spec.specChecks env c.checks [] := by
+  have hscan : c.scanFails = false := by
+    cases hs : c.scanFails with
+    | false => rfl
+    | true => exfalso; apply hu; simp [Spec.specCall, hs]
+  have hcl : Spec.claimableChecks env c.checks = true := by
+    cases hs : Spec.claimableChecks env c.checks with
+    | true => rfl
+    | false => exfalso; apply hu; simp [Spec.specCall, hscan, hs]
+  rcases hk with hk | hk <;> simp [Spec.specCall, hscan, hcl, hk]
+
+/-- **a call whose first checked value stands at a union with one TypeVar alternative** (`def scale(values: Union[List[N], List[str]],
+    factor: N) -> N`), every other parameter and the result in the vocabulary of `call_refines`: the call ends as the specification
+    demands — in particular a value that the TypeVar alternative rejects and another alternative accepts binds NOTHING, the later
+    values for the same TypeVar are judged among themselves only — provided the failing alternative hands the (empty) dict back
+    unchanged (`hkeeps`; e.g. `keeps_first_element`, `keeps_wrong_container`) -/
+theorem alt_call_refines (env : Env) (wf : EnvWF env) (c : Call) (hk : PerCallStore c)
+    (pre post : List A) (x : A) (hu : AltUnion env pre x post) (v : Val) (rest : List (A × Val))
+    (hc : c.checks = (.union (pre ++ x :: post), v) :: rest) (hrest : ∀ ch ∈ rest, frag env ch.1 = true)
+    (hkeeps : (isInst env x v []).1 = .ok false → (isInst env x v []).2 = []) (s : Stores) :
+    Meets [] (Spec.specCall env c) (runCall env c s).1 := by
+  by_cases hun : Spec.specCall env c = .unclaimed
+  · rw [hun]; trivial
+  · rw [perCall_spec env c hk hun, perCall_run env c hk s, hc]
+    have hw := alt_union_refines env wf pre post x hu v [] [] inv_nil hkeeps
+    simp only [Spec.specChecks, runFrom]
+    rcases hr : isInst env (.union (pre ++ x :: post)) v [] with ⟨r, m'⟩
+    rw [hr] at hw
+    cases hwk : Spec.walk env (.union (pre ++ x :: post)) v [] with
+    | cont s' =>
+      rw [hwk] at hw
+      obtain ⟨h1, h2⟩ := hw
+      simp only at h1 h2
+      subst h1
+      simp only [failure]
+      have := checks_refine env wf [] (goodGenerics_nil env) rest hrest s' m' h2
+      rwa [substChecks_nil] at this
+    | stop vd =>
+      rw [hwk] at hw
+      simp only
+      cases vd with
+      | accept => exact hw.elim
+      | unclaimed => trivial
+      | tvm => have h1 : r = .raisedTV := hw; subst h1; simp [failure, Meets]
+      | tvmInUnion => have h1 : r = .ok false := hw; subst h1; simp [failure, Meets]
+      | reject =>
+        have h1 : RejectOK [] r := hw
+        rcases h1 with rfl | ⟨hg', _⟩
+        · simp [failure, Meets]
+        · exact absurd rfl hg'
+
+/-- the alternative `List[T]` / `Tuple[T, ...]` fails at its FIRST element (constraint / bound of `T`): the dict is handed back
+    unchanged, whatever it holds (rests on the order of the translated statement list through `tvBranch_eq`) -/
+theorem keeps_first_element (env : Env) (t : TVId) (y : Val) (ys : List Val) (hy : tvPre env t y ≠ .ok true) (m : TVMap) :
+    (isInst env (.listOf (.tv t)) (.list (y :: ys)) m).2 = m ∧ (isInst env (.tupleVar (.tv t)) (.tuple (y :: ys)) m).2 = m := by
+  have h1 : tvBranch env t y m = (tvPre env t y, m) := by
+    rw [tvBranch_eq]
+    exact tvSem_of_pre env t y m hy
+  constructor
+  · simp only [tvEq, allWith]
+    rw [h1]
+    cases hp : tvPre env t y with
+    | ok b => cases b with
+      | true => exact absurd hp hy
+      | false => rfl
+    | _ => rfl
+  · simp only [tvEq, allWith]
+    rw [h1]
+    cases hp : tvPre env t y with
+    | ok b => cases b with
+      | true => exact absurd hp hy
+      | false => rfl
+    | _ => rfl
+
+/-- the value is not of the container class of the alternative: nothing is looked at, nothing is bound -/
+theorem keeps_wrong_container (env : Env) (a : A) (k w : A) (c : ClsId) (xs : List Val) (m : TVMap) :
+    (isInst env (.listOf a) (.inst c) m).2 = m ∧ (isInst env (.listOf a) (.tuple xs) m).2 = m ∧
+    (isInst env (.dictOf k w) (.inst c) m).2 = m ∧ (isInst env (.dictOf k w) (.list xs) m).2 = m ∧
+    (isInst env (.tupleVar a) (.list xs) m).2 = m := by
+  simp [tvEq]
+
+/-! ### variadic keyword parameters -/
+
+/-- **every keyword argument that names no named parameter is matched against the annotation of `**kwargs`** — also one that
+    carries the name of the `*args` / `**kwargs` parameter itself (rests on the translated filter of `not_yet_check_kwargs`) -/
+theorem kwargs_all_checked (k : VarKw) : k.checks = Spec.kwChecks k := by
+  simp [VarKw.checks, notYetChecked, kwargsFilter, Spec.kwChecks]
+
+theorem kwarg_is_checked (k : VarKw) (key : String) (v : Val) (h : (key, v) ∈ k.items) (hn : key ∉ k.named) :
+    (k.ann, v) ∈ k.checks := by
+  rw [kwargs_all_checked]
+  simp only [Spec.kwChecks, List.mem_map, List.mem_filter]
+  exact ⟨(key, v), ⟨h, by simpa using hn⟩, rfl⟩
+
+/-- the checks of a call with a `**` parameter, as the code makes them and as the property counts them -/
+theorem spliceChecks_eq (checks : List (A × Val)) (k : Option VarKw) : spliceChecks checks k = Spec.spliceSpec checks k := by
+  cases k with
+  | none => rfl
+  | some k => simp [spliceChecks, Spec.spliceSpec, kwargs_all_checked]
+
+/-- so a call with a `**kwargs: T` parameter ends as the specification demands when EVERY extra keyword value is counted as a
+    value matched against `T` (instance of `call_refines`) -/
+theorem variadic_call_refines (env : Env) (wf : EnvWF env) (c : Call) (checks : List (A × Val)) (k : Option VarKw)
+    (hc : c.checks = spliceChecks checks k) (hv : InVocab env c) (s : Stores) :
+    Meets (kindG c.kind) (Spec.specCall env { c with checks := Spec.spliceSpec checks k }) (runCall env c s).1 := by
+  have : ({ c with checks := Spec.spliceSpec checks k } : Call) = c := by
+    rw [← spliceChecks_eq, ← hc]
+  rw [this]
+  exact call_refines env wf c hv s
+
+/-! ### class shapes -/
+
+theorem zipX_get_none : ∀ (ps : List TVId) (acts : List A) (t : TVId), t ∉ ps → (Spec.zipX ps acts).get? t = none := by
+  intro ps
+  induction ps with
+  | nil => intro acts t _; cases acts <;> rfl
+  | cons p ps ih =>
+    intro acts t ht
+    cases acts with
+    | nil => rfl
+    | cons x xs =>
+      simp only [List.mem_cons, not_or] at ht
+      have hpt : (p == t) = false := by simp; exact fun h => ht.1 h.symm
+      simp only [Spec.zipX, TVMap.get?, hpt, Bool.false_eq_true, ↓reduceIte]
+      exact ih xs t ht.2
+
+/-- zipping the parameters of the class with as many arguments never runs out of arguments, and binds the i-th parameter to the i-th argument -/
+theorem zipGenerics_params : ∀ (ps : List TVId) (acts : List A) (m : TVMap), ps.Nodup → ps.length = acts.length →
+    ∃ g, zipGenerics (ps.map A.tv) acts m = some g ∧
+      ∀ t, g.get? t = (match (Spec.zipX ps acts).get? t with | some b => some b | none => m.get? t) := by
+  intro ps
+  induction ps with
+  | nil =>
+    intro acts m _ hl
+    cases acts with
+    | nil => exact ⟨m, rfl, fun t => rfl⟩
+    | cons _ _ => simp at hl
+  | cons p ps ih =>
+    intro acts m hnd hl
+    cases acts with
+    | nil => simp at hl
+    | cons x xs =>
+      simp only [List.nodup_cons] at hnd
+      obtain ⟨g, hg, hget⟩ := ih xs (m.set p x) hnd.2 (by simpa using hl)
+      refine ⟨g, by simpa [zipGenerics] using hg, ?_⟩
+      intro t
+      rw [hget t]
+      by_cases htp : t = p
+      · subst htp
+        rw [zipX_get_none ps xs t hnd.1]
+        simp [Spec.zipX, TVMap.get?, get?_set_self]
+      · have hpt : (p == t) = false := by simp; exact fun h => htp h.symm
+        simp only [Spec.zipX, TVMap.get?, hpt, Bool.false_eq_true, ↓reduceIte]
+        cases (Spec.zipX ps xs).get? t with
+        | some b => rfl
+        | none => simp only; exact get?_set_ne m x htp
+
+/-- the first original base of the class lists exactly its type parameters, in their order: `class Box(Generic[T])`, `class Bag(List[T])`,
+    `class Table(Dict[K, V])`, `class Child(Base[T], Generic[T])`, `class C(List[T], Mixin)` -/
+def Shape.FirstBaseListsParams (sh : Shape) : Prop := sh.origBases.head?.map (·.2) = some (sh.params.map A.tv)
+
+/-- **an instance `Cls[X1, ..]()` of such a class resolves its parameters to `X1, ..`** — whether or not `__orig_bases__` has an
+    explicit `Generic[...]` entry: no exception leaves the accessor, and the bindings are the ones the property speaks of
+    (rests on the translated source of the type parameters, `genericParamsFrom`) -/
+theorem shape_resolves (sh : Shape) (hgen : sh.genericInBases = true) (hfirst : sh.FirstBaseListsParams) (hnd : sh.params.Nodup)
+    (acts : List A) (hact : sh.actual = some acts) (hlen : sh.params.length = acts.length) :
+    ∃ g, sh.kind = some (.genericInstance sh.params g) ∧ ∀ t, g.get? t = (Spec.zipX sh.params acts).get? t := by
+  have htv : sh.typeVariables = some (sh.params.map A.tv) := by
+    unfold Shape.FirstBaseListsParams at hfirst
+    simp [Shape.typeVariables, genericParamsFrom, hfirst]
+  obtain ⟨g, hg, hget⟩ := zipGenerics_params sh.params acts [] hnd hlen
+  refine ⟨g, ?_, ?_⟩
+  · simp [Shape.kind, Shape.isGeneric, genericTest, genericsFromOrigClass, hgen, Shape.generics, hact, htv, hg]
+  · intro t
+    rw [hget t]
+    cases (Spec.zipX sh.params acts).get? t <;> rfl
+
+/-- inside `__init__` (no `__orig_class__` yet) nothing is read from the bases: no exception, no class-parameter binding -/
+theorem shape_in_init (sh : Shape) (hact : sh.inInit = true) :
+    sh.kind = some (if sh.isGeneric then .genericInstance sh.params [] else .resetEachAccess) := by
+  cases hgen : sh.isGeneric <;> simp [Shape.kind, genericsFromOrigClass, hgen, Shape.generics, Shape.actual, hact]
+
+theorem set_new_key : ∀ (m : TVMap) (t : TVId) (x : A), t ∉ keys m → m.set t x = m ++ [(t, x)] := by
+  intro m
+  induction m with
+  | nil => intro t x _; rfl
+  | cons kv rest ih =>
+    intro t x ht
+    obtain ⟨k, y⟩ := kv
+    simp only [keys, List.map_cons, List.mem_cons, not_or] at ht
+    have hk : (k == t) = false := by simp; exact fun h => ht.1 h.symm
+    simp only [TVMap.set, hk, Bool.false_eq_true, ↓reduceIte, List.cons_append]
+    rw [ih t x (by simpa [keys] using ht.2)]
+
+/-- the zip is EXACTLY `Ti ↦ Xi` in the order of the parameters (`pairUp`) -/
+theorem zipGenerics_exact : ∀ (ps : List TVId) (acts : List A) (m : TVMap), ps.Nodup → ps.length = acts.length → (∀ p ∈ ps, p ∉ keys m) →
+    zipGenerics (ps.map A.tv) acts m = some (m ++ Spec.zipX ps acts) := by
+  intro ps
+  induction ps with
+  | nil =>
+    intro acts m _ hl _
+    cases acts with
+    | nil => simp [zipGenerics, Spec.zipX]
+    | cons _ _ => simp at hl
+  | cons p ps ih =>
+    intro acts m hnd hl hdis
+    cases acts with
+    | nil => simp at hl
+    | cons x xs =>
+      simp only [List.nodup_cons] at hnd
+      have hp : p ∉ keys m := hdis p (by simp)
+      simp only [List.map_cons, zipGenerics]
+      rw [set_new_key m p x hp]
+      rw [ih xs (m ++ [(p, x)]) hnd.2 (by simpa using hl) ?_]
+      · simp [Spec.zipX]
+      · intro q hq
+        simp only [keys, List.map_append, List.map_cons, List.map_nil, List.mem_append, List.mem_singleton, not_or]
+        refine ⟨by simpa [keys] using hdis q (by simp [hq]), ?_⟩
+        intro hqp; subst hqp; exact hnd.1 hq
+
+/-- **what the library derives for an instance `Cls[X1, ..](...)` of such a class, once `__init__` has returned, is what the
+    DECLARATIONS say**: the store of a generic instance with exactly `Ti ↦ Xi` — `Shape.kind` (the model of `is_instance_of_generic_class`
+    and `check_instance_of_generic_class_and_get_type_vars`, resting on `genericsFromOrigClass` and `genericParamsFrom`) equals
+    `Spec.shapeKind` (read off the class statement and the creating expression) -/
+theorem shape_kind_eq_spec (sh : Shape) (hgen : sh.genericInBases = true) (hfirst : sh.FirstBaseListsParams) (hnd : sh.params.Nodup)
+    (hne : sh.params ≠ []) (X : List A) (hdecl : sh.declared = some X) (hinit : sh.inInit = false) (hlen : sh.params.length = X.length) :
+    sh.kind = some (Spec.shapeKind sh) := by
+  have htv : sh.typeVariables = some (sh.params.map A.tv) := by
+    unfold Shape.FirstBaseListsParams at hfirst
+    simp [Shape.typeVariables, genericParamsFrom, hfirst]
+  have hz := zipGenerics_exact sh.params X [] hnd hlen (by intro p _; simp [keys])
+  have hemp : sh.params.isEmpty = false := by cases h : sh.params with | nil => exact absurd h hne | cons _ _ => rfl
+  simp [Shape.kind, Shape.isGeneric, genericTest, genericsFromOrigClass, hgen, Shape.generics, Shape.actual, hinit, hdecl, htv, hz, Spec.shapeKind, hemp]
+
+/-- **the per-instance clause from the declarations**: a method call, made after construction, on an instance created as
+    `Cls[X1, ..](...)` of a generic `@pedantic_class` class whose first original base lists its parameters — `Box(Generic[T])`,
+    `Bag(List[T])`, `Table(Dict[K, V])`, `Child(Base[T], Generic[T])`, `C(List[T], Mixin)` — ends as the specification of `Cls[X]`
+    demands: the model derives the store from the class shape (`hk`), the specification from the declarations -/
+theorem declared_call_refines (env : Env) (wf : EnvWF env) (sh : Shape) (hgen : sh.genericInBases = true) (hfirst : sh.FirstBaseListsParams)
+    (hnd : sh.params.Nodup) (hne : sh.params ≠ []) (X : List A) (hdecl : sh.declared = some X) (hinit : sh.inInit = false)
+    (hlen : sh.params.length = X.length) (c : Call) (hk : sh.kind = some c.kind) (hv : InVocab env c) (s : Stores) :
+    Meets (kindG (Spec.shapeKind sh)) (Spec.specCall env { c with kind := Spec.shapeKind sh }) (runCall env c s).1 := by
+  have hkind : c.kind = Spec.shapeKind sh := by
+    have := shape_kind_eq_spec sh hgen hfirst hnd hne X hdecl hinit hlen
+    rw [this] at hk
+    exact (Option.some.inj hk).symm
+  have hc : ({ c with kind := Spec.shapeKind sh } : Call) = c := by rw [← hkind]
+  rw [hc, ← hkind]
+  exact call_refines env wf c hv s
+
+/-- `class Bag(List[T])`, `Bag[str]()`: T ↦ str (0 = T, 3 = str); `class Table(Dict[K, V])`, `Table[str, int]()` (0, 1 = K, V) -/
+example : ∃ g, (Shape.mk true [0] [(false, [.tv 0])] (some [.cls 3]) false).kind = some (.genericInstance [0] g) ∧
+    ∀ t, g.get? t = (Spec.zipX [0] [.cls 3]).get? t :=
+  shape_resolves (Shape.mk true [0] [(false, [.tv 0])] (some [.cls 3]) false) rfl (by simp [Shape.FirstBaseListsParams]) (by decide) _ rfl rfl
+example : ∃ g, (Shape.mk true [0, 1] [(false, [.tv 0, .tv 1])] (some [.cls 3, .cls 2]) false).kind = some (.genericInstance [0, 1] g) ∧
+    ∀ t, g.get? t = (Spec.zipX [0, 1] [.cls 3, .cls 2]).get? t :=
+  shape_resolves (Shape.mk true [0, 1] [(false, [.tv 0, .tv 1])] (some [.cls 3, .cls 2]) false) rfl (by simp [Shape.FirstBaseListsParams]) (by decide) _ rfl rfl
+
+/-- finding `genericParamsFromFirstBase`, witnesses on the model: `class R(Dict[str, T], Generic[T])`, `R[int]()` — two "type
+    variables", one argument: the accessor raises IndexError (`none`) -/
+theorem first_base_with_other_arguments_escapes :
+    (Shape.mk true [0] [(false, [.cls 3, .tv 0]), (true, [.tv 0])] (some [.cls 2]) false).kind.isNone = true := by decide
+
+/-- `class C(Mixin, Generic[T])`, `C[int]()`: the first base has no type arguments — T is not taken from `[int]` at all -/
+theorem first_base_without_arguments_binds_nothing :
+    ((Shape.mk true [0] [(false, []), (true, [.tv 0])] (some [.cls 2]) false).generics.map (·.length)) = some 0 := by decide
+
+/-- `class C(Dict[K, V], Generic[V, K])` (parameters V, K = 1, 0), `C[str, int]()`: V should be str, K int — the code binds K ↦ str -/
+theorem first_base_in_other_order_swaps :
+    ((Shape.mk true [1, 0] [(false, [.tv 0, .tv 1]), (true, [.tv 1, .tv 0])] (some [.cls 3, .cls 2]) false).generics.map
+      (fun g => match g.get? 0 with | some (.cls 3) => true | _ => false)) = some true := by decide
+
+/-- finding `initOfGenericInstanceUnchecked`, witness: `@pedantic_class class BoxI(Generic[T]): def __init__(self, a: T) -> None`;
+    `BoxI[int](a='x')` — the declarations say T = int, the specification demands a rejection; inside `__init__` the instance has no
+    `__orig_class__` yet, the model (as the code) finds no binding for T and accepts -/
+theorem init_of_generic_instance_unchecked_witness :
+    let sh : Shape := ⟨true, [0], [(true, [.tv 0])], some [.cls 2], true⟩
+    let c (k : StoreKind) : Call := ⟨0, 0, k, false, [(T, .inst 3), retNone]⟩
+    (sh.kind.map fun k => (runCall envX (c k) Stores.empty).1) = some .ok ∧
+    Spec.specCall envX (c (Spec.shapeKind sh)) = .reject ∧ Spec.shapeRegions sh = ["initOfGenericInstanceUnchecked"] := by decide
+
+/-- finding `genericSubclassNotRecognised`, witness: `class Sub(Box[T])`, `Sub[int]().put(a='s')` — the specification (declarations:
+    T = int) demands a rejection, the model gives the instance the store of a non-generic class and accepts -/
+theorem generic_subclass_not_recognised_witness :
+    let sh : Shape := ⟨false, [0], [(false, [.tv 0])], some [.cls 2], false⟩
+    let c (k : StoreKind) : Call := ⟨0, 0, k, false, [(T, .inst 3), retNone]⟩
+    (sh.kind.map fun k => (runCall envX (c k) Stores.empty).1) = some .ok ∧
+    Spec.specCall envX (c (Spec.shapeKind sh)) = .reject ∧ Spec.shapeRegions sh = ["genericSubclassNotRecognised"] := by decide
+
+/-- finding `genericSubclassNotRecognised`: `class Child(Base[T])` — `Generic` is not among the direct bases, the instance gets
+    the store of a non-generic class whatever `X` is -/
+theorem user_base_only_is_per_call (params : List TVId) (ob : List (Bool × List A)) (act : Option (List A)) (ini : Bool) :
+    (Shape.mk false params ob act ini).kind = some .resetEachAccess := by
+  simp [Shape.kind, Shape.isGeneric, genericTest, genericsFromOrigClass]
+
+/-! ### concrete unions (the class table of the harness: 2 int, 3 str, 5 float, 0 object; TypeVar 2 = TC(int, str)) -/
+
+private def scaleCall (values factor result : Val) : Call :=
+  plain [(.union [.listOf (.tv 2), .listOf (.cls 5)], values), (.tv 2, factor), (.cls 0, result), (.tv 2, result)]
+
+private theorem scaleUnion : AltUnion envX [] (.listOf (.tv 2)) [.listOf (.cls 5)] where
+  xFrag := by decide
+  xOpen := by decide
+  xNotTV := by decide
+  preClosed := by decide
+  preFrag := by decide
+  postClosed := by decide
+  postFrag := by decide
+  noNone := by decide
+
+/-- `def scale(values: Union[List[TC], List[float]], factor: TC, r: object) -> TC`: `scale(values=[1.5, 2.5], factor=3, r=3)` — the
+    floats are no `TC`, the list is accepted as `List[float]`, and `3` is the only value matched against `TC`: accepted, from every
+    state of the stores (instance of `alt_call_refines`; the guard holds by `keeps_first_element`) -/
+example (s : Stores) : (runCall envX (scaleCall (.list [.inst 5, .inst 5]) (.inst 2) (.inst 2)) s).1 = .ok := by
+  have h := alt_call_refines envX wfX (scaleCall (.list [.inst 5, .inst 5]) (.inst 2) (.inst 2)) (Or.inl rfl) [] [.listOf (.cls 5)] (.listOf (.tv 2))
+    scaleUnion (.list [.inst 5, .inst 5]) _ rfl (by decide)
+    (fun _ => (keeps_first_element envX 2 (.inst 5) [.inst 5] (by decide) []).1) s
+  have hs : Spec.specCall envX (scaleCall (.list [.inst 5, .inst 5]) (.inst 2) (.inst 2)) = .accept := by decide
+  rw [hs] at h
+  exact h
+
+/-- ... `scale(values=[1, 2], factor='s', r='s')`: the ints ARE matched against `TC` (the alternative accepts), `'s'` clashes -/
+example : Spec.specCall envX (scaleCall (.list [.inst 2, .inst 2]) (.inst 3) (.inst 3)) = .tvm ∧
+    (runCall envX (scaleCall (.list [.inst 2, .inst 2]) (.inst 3) (.inst 3)) Stores.empty).1 = .pedTVMismatch := by decide
+
+/-- finding `failedUnionAlternativeLeavesBinding`, witness on the model: `def f(a: Union[List[TC], List[object]], b: TC)`;
+    `f(a=[1, 1.5], b='s')` — the specification demands acceptance (`[1, 1.5]` is no `List[TC]`, `'s'` is the only value matched against
+    `TC`), the model (as the code) raises the mismatch: the failed alternative tied `TC` to int for its first element.  With the
+    elements in the other order the alternative fails at its first element and the call is accepted. -/
+theorem failed_alternative_leaves_binding_witness :
+    let f (a : Val) : Call := plain [(.union [.listOf (.tv 2), .listOf (.cls 0)], a), (.tv 2, .inst 3), retNone]
+    Spec.specCall envX (f (.list [.inst 2, .inst 5])) = .accept ∧ (runCall envX (f (.list [.inst 2, .inst 5])) Stores.empty).1 = .pedTVMismatch ∧
+    Spec.regions envX [] (f (.list [.inst 2, .inst 5])) = ["failedUnionAlternativeLeavesBinding"] ∧
+    Spec.specCall envX (f (.list [.inst 5, .inst 2])) = .accept ∧ (runCall envX (f (.list [.inst 5, .inst 2])) Stores.empty).1 = .ok ∧
+    Spec.regions envX [] (f (.list [.inst 5, .inst 2])) = [] := by decide
+
+/-- finding `mismatchInUnionAlternativeAborts`, witness on the model: `Box[int]().m(a=['x'])` with `a: Union[List[T], List[str]]` — the
+    value conforms to `Union[List[int], List[str]]`, the mismatch raised inside the `List[T]` alternative ends the call -/
+theorem mismatch_in_alternative_aborts_witness :
+    let c : Call := onBoxInt [(.union [.listOf T, .listOf (.cls 3)], .list [.inst 3]), retNone]
+    Spec.specCall envX c = .accept ∧ (runCall envX c Stores.empty).1 = .pedTVMismatch ∧
+    Spec.regions envX [] c = ["mismatchInUnionAlternativeAborts"] := by decide
+
+/-- `def same(first: T, **kwargs: T)`; `same(first=1, kwargs='x')`: the keyword `kwargs` is a value of the `**` parameter — the model
+    checks it, the call raises the mismatch (0 = T) -/
+example :
+    let k : VarKw := ⟨["first"], ["kwargs"], T, [("first", .inst 2), ("kwargs", .inst 3)], 1⟩
+    (spliceChecks [(T, .inst 2), retNone] (some k)).length = 3 ∧
+    (runCall envX (plain (spliceChecks [(T, .inst 2), retNone] (some k))) Stores.empty).1 = .pedTVMismatch := by decide
+
+
+/-! ### histories over DECLARED instances: one class shape + creating expression per instance, the store kind of every call derived from it -/
+
+/-- a call as the program makes it: which instance, which function, whether `__init__` of the instance is still running -/
+structure PCall where
+  inst : Nat
+  fn : Nat
+  inInit : Bool
+  scanFails : Bool
+  checks : List (A × Val)
+
+/-- the call as the library sees it: the store kind is what `Shape.kind` derives from the declaration of the instance (`none`: unknown
+    instance, or the accessor raises) -/
+def PCall.model (decls : List Shape) (d : PCall) : Option Call :=
+  (decls[d.inst]?).bind fun sh => ({ sh with inInit := d.inInit } : Shape).kind.map fun k => ⟨d.inst, d.fn, k, d.scanFails, d.checks⟩
+
+/-- the call as the property sees it: an instance created as `Cls[X](...)` -/
+def PCall.spec (decls : List Shape) (d : PCall) : Option Call :=
+  (decls[d.inst]?).map fun sh => ⟨d.inst, d.fn, Spec.shapeKind { sh with inInit := d.inInit }, d.scanFails, d.checks⟩
+
+/-- a generic class whose first original base lists its parameters, created with as many type arguments -/
+structure Shape.Declared (sh : Shape) : Prop where
+  generic : sh.genericInBases = true
+  first : sh.FirstBaseListsParams
+  nodup : sh.params.Nodup
+  nonempty : sh.params ≠ []
+  args : ∃ X, sh.declared = some X ∧ sh.params.length = X.length
+
+theorem pcall_model_eq_spec (decls : List Shape) (hd : ∀ sh ∈ decls, sh.Declared) (d : PCall) (hi : d.inInit = false) (hin : d.inst < decls.length) :
+    d.model decls = d.spec decls := by
+  have hsh : decls[d.inst]? = some decls[d.inst] := List.getElem?_eq_getElem hin
+  have hdecl := hd decls[d.inst] (List.getElem_mem hin)
+  obtain ⟨X, hX, hlen⟩ := hdecl.args
+  have hk := shape_kind_eq_spec ({ decls[d.inst] with inInit := d.inInit } : Shape) hdecl.generic hdecl.first hdecl.nodup hdecl.nonempty X hX hi hlen
+  simp only [PCall.model, PCall.spec, hsh, Option.bind_some, Option.map_some, hk]
+
+/-- **C07 over declared instances, outside the recorded regions**: a program declares its instances ONCE (class statement as typing
+    presents it + the type arguments of the creating expression); every history of calls made after construction on these instances —
+    any order, any number, any methods — is run by the model with store kinds and bindings it DERIVES from the declarations, and ends,
+    step by step, as the specification of `Cls[X]` (read off the same declarations) demands.  No call carries a binding of its own. -/
+theorem C07_declared_partial (env : Env) (wf : EnvWF env) (decls : List Shape) (hd : ∀ sh ∈ decls, sh.Declared) :
+    ∀ (h : List PCall), (∀ d ∈ h, d.inInit = false ∧ d.inst < decls.length) →
+    ∃ calls, h.mapM (PCall.model decls) = some calls ∧ h.mapM (PCall.spec decls) = some calls ∧
+      ((∀ c ∈ calls, InVocab env c ∧ Guard env c) → ∀ (s : Stores), AllDemand (Spec.specHistory env calls) (runHistory env calls s)) := by
+  intro h
+  induction h with
+  | nil => intro _; exact ⟨[], rfl, rfl, fun _ s => trivial⟩
+  | cons d rest ih =>
+    intro hall
+    obtain ⟨calls, hm, hs, _⟩ := ih (fun d hd' => hall d (by simp [hd']))
+    have hd0 := hall d (by simp)
+    have heq := pcall_model_eq_spec decls hd d hd0.1 hd0.2
+    have hsome : ∃ c, d.spec decls = some c := by
+      simp only [PCall.spec, List.getElem?_eq_getElem hd0.2, Option.map_some]
+      exact ⟨_, rfl⟩
+    obtain ⟨c, hc⟩ := hsome
+    refine ⟨c :: calls, ?_, ?_, fun hv s => C07_partial env wf (c :: calls) hv s⟩
+    · simp [List.mapM_cons, heq, hc, hm]
+    · simp [List.mapM_cons, hc, hs]
+
+/-- `Box(Generic[T])[int]` and `Bag(List[T])[str]` (no `Generic[...]` entry among the original bases) are declared instances; the
+    model derives a store for a call on each (0 = T, 2 = int, 3 = str) -/
+example :
+    let decls : List Shape := [⟨true, [0], [(true, [.tv 0])], some [.cls 2], false⟩, ⟨true, [0], [(false, [.tv 0])], some [.cls 3], false⟩]
+    (∀ sh ∈ decls, sh.Declared) ∧
+    ((PCall.mk 1 0 false false [(.tv 0, .inst 3), (.cls 1, .inst 1)]).model decls).isSome = true := by
+  refine ⟨?_, by decide⟩
+  intro sh hsh
+  simp only [List.mem_cons, List.mem_nil_iff, or_false] at hsh
+  rcases hsh with rfl | rfl
+  · exact ⟨rfl, by simp [Shape.FirstBaseListsParams], by decide, by decide, ⟨[.cls 2], rfl, rfl⟩⟩
+  · exact ⟨rfl, by simp [Shape.FirstBaseListsParams], by decide, by decide, ⟨[.cls 3], rfl, rfl⟩⟩
+
+/-! ### `Optional[x]` spelled `Union[None, x]` (None first) -/
+
+/-- the model does not care in which order `None` and the other member of an `Optional` stand -/
+theorem isInst_none_first (env : Env) (wf : EnvWF env) (x : A) (hu : x.isUnion = false) (v : Val) (m : TVMap) :
+    isInst env (.union [.cls env.noneCls, x]) v m = isInst env (.union [x, .cls env.noneCls]) v m := by
+  have hnb : clsAnn env env.noneCls v = .ok (env.sub (v.typeOf env) env.noneCls) := by simp [clsAnn, wf.noneNotBare]
+  by_cases htv : x.isTV = true
+  · cases x with
+    | tv t => simp [tvEq, A.isTV, tvMembers, hnb]
+    | _ => simp [A.isTV] at htv
+  · have htv' : x.isTV = false := by simpa using htv
+    have htm : tvMembers [.cls env.noneCls, x] = tvMembers [x, .cls env.noneCls] := by
+      cases x <;> simp_all [tvMembers, A.isTV]
+    simp only [tvEq, isTV_cls, htv', Bool.false_eq_true, ↓reduceIte, hnb, htm]
+    rcases isInst env x v m with ⟨r, m'⟩
+    cases r with
+    | ok b =>
+      simp only [Bool.or_false]
+      cases b <;> cases env.sub (v.typeOf env) env.noneCls <;> rfl
+    | _ => rfl
+
+/-- neither does the specification -/
+theorem walk_none_first (env : Env) (x : A) (v : Val) (s : Spec.Seen) :
+    Spec.walk env (.union [.cls env.noneCls, x]) v s = Spec.walk env (.union [x, .cls env.noneCls]) v s := by
+  by_cases hc : Spec.closed x = true
+  · simp [Spec.walk, Spec.walkUnion, hc, Spec.closed, Bool.or_comm]
+  · have hc' : Spec.closed x = false := by simpa using hc
+    simp [Spec.walk, Spec.walkUnion, hc', Spec.closed, Spec.isNoneCls]
+
+/-- **`Union[None, x]` as the annotation of a parameter or of the result is `Optional[x]`**: the refinement of `walk_refines`, for the
+    spelling with `None` first (which `frag` does not list) -/
+theorem walk_refines_none_first (env : Env) (wf : EnvWF env) (g : TVMap) (hg : GoodGenerics env g) (x : A)
+    (hf : frag env (.union [x, .cls env.noneCls]) = true) (hu : x.isUnion = false) (v : Val) (s : Spec.Seen) (m : TVMap) (h : Inv g s m) :
+    Refines g (Spec.walk env (Spec.subst g (.union [.cls env.noneCls, x])) v s) (isInst env (.union [.cls env.noneCls, x]) v m) := by
+  have hw := walk_refines env wf g hg _ hf v s m h
+  have hs1 : Spec.subst g (.union [.cls env.noneCls, x]) = .union [.cls env.noneCls, Spec.subst g x] := by simp [Spec.subst, Spec.substL]
+  have hs2 : Spec.subst g (.union [x, .cls env.noneCls]) = .union [Spec.subst g x, .cls env.noneCls] := by simp [Spec.subst, Spec.substL]
+  rw [hs1, walk_none_first, ← hs2, isInst_none_first env wf x hu]
+  exact hw
+
+example : frag envX (.union [.listOf (.tv 0), .cls envX.noneCls]) = true := by decide
+
+
+/-! ### regions the property does not speak of (`unclaimed`), observed on the model — witnesses, not claims -/
+
+/-- `Type[T]` never compares the class object with `T`: `Box[P]().ty(a=U)` with `a: Type[T]` is accepted (10 = P, 14 = U) -/
+theorem type_of_typevar_unchecked_witness :
+    let c : Call := ⟨0, 0, .genericInstance [0] [(0, .cls 10)], false, [(.typeOf T, .clsObj 14), retNone]⟩
+    (runCall envX c Stores.empty).1 = .ok ∧ Spec.specCall envX c = .unclaimed := by decide
+
+/-- a union with a TypeVar member next to a container of that TypeVar: `Box[list]().m(a=['s'])` with `a: Union[List[T], T]` raises the
+    mismatch although `['s']` conforms to the second member (6 = list) -/
+theorem union_member_exception_aborts_witness :
+    let c : Call := ⟨0, 0, .genericInstance [0] [(0, .cls 6)], false, [(.union [.listOf T, T], .list [.inst 3]), retNone]⟩
+    (runCall envX c Stores.empty).1 = .pedTVMismatch ∧ Spec.specCall envX c = .unclaimed := by decide
+
+/-- the source scan (`x = Cls(...)` without type arguments in the caller's source): every call on the instance raises the mismatch,
+    whatever the values are -/
+theorem source_scan_region_witness :
+    let c (v : Val) : Call := ⟨0, 0, .genericInstance [0] [], true, [(T, v), retNone]⟩
+    (runCall envX (c (.inst 2)) Stores.empty).1 = .pedTVMismatch ∧ (runCall envX (c (.inst 3)) Stores.empty).1 = .pedTVMismatch ∧
+    Spec.specCall envX (c (.inst 2)) = .unclaimed := by decide
+
+/-- outside `GoodGenerics`: a class parameter with a bound, `class Zoo(Generic[TB])`, `Zoo[C1]()` (3 = TB bound=P, 11 = C1, 10 = P, 14 = U):
+    the model (as the code) accepts a `C1`, raises the mismatch for a `P` (it meets the bound but not `X`) and rejects a `U` on the bound;
+    a constrained class parameter `Cage[int]()` (2 = TC(int, str)) rejects a `bool` on the exact-class constraint test although it conforms to `X` -/
+theorem bounded_class_parameter_witness :
+    let zoo (v : Val) : Call := ⟨0, 0, .genericInstance [3] [(3, .cls 11)], false, [(.tv 3, v), retNone]⟩
+    let cage (v : Val) : Call := ⟨0, 0, .genericInstance [2] [(2, .cls 2)], false, [(.tv 2, v), retNone]⟩
+    (runCall envX (zoo (.inst 11)) Stores.empty).1 = .ok ∧ (runCall envX (zoo (.inst 10)) Stores.empty).1 = .pedTVMismatch ∧
+    (runCall envX (zoo (.inst 14)) Stores.empty).1 = .pedTypeCheck ∧
+    (runCall envX (cage (.inst 2)) Stores.empty).1 = .ok ∧ (runCall envX (cage (.inst 4)) Stores.empty).1 = .pedTypeCheck ∧
+    (runCall envX (cage (.inst 3)) Stores.empty).1 = .pedTVMismatch := by decide
 
 end PedVerif.TypeVars
